@@ -10,7 +10,7 @@ Definition emax (tl : N) (s : seginfo) : N := if si_sealed s then si_max s else 
 
 (* environment after a successful I/O action when no fault is armed *)
 Definition io_post (a : act) (e : env) : env :=
-  {| e_acts := a :: e_acts e; e_disk := apply_act (e_disk e) a; e_fault := None; e_m := e_m e |}.
+  {| e_acts := a :: e_acts e; e_disk := apply_act (e_disk e) a; e_fault := None; e_fx := e_fx e; e_m := e_m e |}.
 
 (* the file of a listed segment: present, fully synced, entries with
    consecutive indexes from BaseIndex, each a storable raft.Log *)
